@@ -29,7 +29,7 @@ CONSTANTS Cmds,       \* command ids
           TO,         \* response timeout (logical ticks; ms in trace validation)
           Ghost,      \* a sender that is nobody's target
           ForeignId,  \* a command id nobody issued
-          Mutant,     \* "none" | "idonly" | "tgtonly" | "nounreg"
+          Mutant,     \* "none" | "idonly" | "tgtonly" | "nounreg" | "cmdwide"
           EnqOrders   \* {} : commands are enqueued by the Enqueue action at any time;
                       \* else a set of sequences of commands: everything is enqueued at the start
                       \* in one of these orders (smaller state space, same queue contents)
@@ -48,7 +48,7 @@ VARIABLES
               \*   blocked on `call.Done <- empty{}` (NoMsg = none)
   result,     \* result[<<c,t>>]: what RunCommand returned: R(kind, message), kind = "-" | "timeout" | "senderr" | "reply"
   deadline,   \* deadline[<<c,t>>]: when the response timer of (c,t) fires
-  began,      \* began[c]: clock at BeginCommit
+  began,      \* began[c]: clock at BeginCommit, then at the latest return of a SendFunc of c
   clock,
   delivered   \* delivered[c]: number of values sent on c's callback channel (the value is Value(c)
               \*   in the state in which Deliver(c) is taken)
@@ -79,12 +79,16 @@ Emits(c, t, b) ==
     [] b = "wrongsender" -> {Msg(c, Ghost, c, t, 1, FALSE)}
     [] b = "crossid"     -> {Msg(Other(c), t, c, t, 1, FALSE)}
     [] b = "failreply"   -> {Msg(c, t, c, t, 1, FALSE)}   \* send reported failed, delivered anyway
+    [] b = "slow"        -> {Msg(c, t, c, t, 1, FALSE)}   \* SendFunc takes (logical) time to return
     [] b = "fastreply"   -> {Msg(c, t, c, t, 1, FALSE)}   \* (generator: arrives before SendFunc returned)
     [] OTHER             -> {}                             \* "silent", "sendfail"
 SendFails(b) == b \in {"sendfail", "failreply"}
 \* behaviours for which something happens between entering and leaving SendFunc; for the others
 \* the call of SendFunc is one step (nothing can tell the difference)
-TwoStep(b) == b \in {"fastreply", "failreply"}
+TwoStep(b) == b \in {"fastreply", "failreply", "slow"}
+\* the transport may take time to return: the response timer of a call starts when ITS SendFunc
+\* returned, so the deadlines of the targets of one command can differ
+SlowSend(b) == b = "slow"
 
 \* Servent.pending is keyed by CallId{Id, Target}
 Key(id, snd) ==
@@ -137,24 +141,26 @@ Register(c, t) ==
 \* s.SendFunc(cmd, receiver) is entered; the environment decides what this target will do.
 \* SendFunc returns nil -> select { <-call.Done | <-time.After(timeout) }; error -> unregister path
 AfterSend(c, t, b) ==
-  IF SendFails(b)
-    THEN pc' = [pc EXCEPT ![<<c, t>>] = "sffired"] /\ UNCHANGED deadline
-    ELSE /\ pc' = [pc EXCEPT ![<<c, t>>] = "waiting"]
-         /\ deadline' = [deadline EXCEPT ![<<c, t>>] = clock + TO]
+  /\ began' = [began EXCEPT ![c] = clock]      \* (latest return of a SendFunc of this command)
+  /\ IF SendFails(b)
+       THEN pc' = [pc EXCEPT ![<<c, t>>] = "sffired"] /\ UNCHANGED deadline
+       ELSE /\ pc' = [pc EXCEPT ![<<c, t>>] = "waiting"]
+            /\ deadline' = [deadline EXCEPT ![<<c, t>>] = clock + TO]
 
 SendBegin(c, t, b) ==
   /\ pc[<<c, t>>] = "registered" /\ b \in Behs
   /\ beh' = [beh EXCEPT ![<<c, t>>] = b]
   /\ net' = net \cup Emits(c, t, b)
-  /\ IF TwoStep(b) THEN pc' = [pc EXCEPT ![<<c, t>>] = "sending"] /\ UNCHANGED deadline
+  /\ IF TwoStep(b) THEN pc' = [pc EXCEPT ![<<c, t>>] = "sending"] /\ UNCHANGED <<deadline, began>>
                    ELSE AfterSend(c, t, b)
-  /\ UNCHANGED <<tg, qof, enq, queue, commit, pending, held, result, began, clock, delivered>>
+  /\ UNCHANGED <<tg, qof, enq, queue, commit, pending, held, result, clock, delivered>>
 
-\* SendFunc returns (two-step behaviours only)
+\* SendFunc returns (two-step behaviours only); at once, except for a slow send, which returns
+\* whenever the transport pleases (time may pass meanwhile, see Tick)
 SendEnd(c, t) ==
   /\ pc[<<c, t>>] = "sending"
   /\ AfterSend(c, t, beh[<<c, t>>])
-  /\ UNCHANGED <<tg, qof, enq, queue, commit, beh, net, pending, held, result, began, clock, delivered>>
+  /\ UNCHANGED <<tg, qof, enq, queue, commit, beh, net, pending, held, result, clock, delivered>>
 
 \* case <-call.Done: the blocked ProcessResponse hands over; RunCommand returns call.Response
 DoneRecv(c, t) ==
@@ -174,7 +180,9 @@ Timeout(c, t) ==
 \* s.mu.Lock(); delete(s.pending, callId); s.mu.Unlock(); return nil, err   (timeout and send-error paths)
 Unreg(c, t) ==
   /\ pc[<<c, t>>] \in {"tofired", "sffired"}
-  /\ pending' = IF Mutant = "nounreg" \/ Key(c, t) \notin DOMAIN pending THEN pending
+  /\ pending' = IF Mutant = "cmdwide" /\ pc[<<c, t>>] = "tofired"
+                  THEN [k \in {x \in DOMAIN pending : pending[x][1] # c} |-> pending[k]]
+                ELSE IF Mutant = "nounreg" \/ Key(c, t) \notin DOMAIN pending THEN pending
                 ELSE Drop(pending, Key(c, t))
   /\ result' = [result EXCEPT ![<<c, t>>] = R(IF pc[<<c, t>>] = "tofired" THEN "timeout" ELSE "senderr", NoMsg)]
   /\ pc' = [pc EXCEPT ![<<c, t>>] = "ret"]
@@ -221,7 +229,8 @@ Deliver(c) ==
 SysEnabled ==
   \/ \E c \in Cmds : LET q == qof[c] IN commit[q] = NoCmd /\ queue[q] # <<>> /\ Head(queue[q]) = c
   \/ \E p \in Active :
-       \/ pc[p] \in {"idle", "registered", "sending", "tofired", "sffired"}
+       \/ pc[p] \in {"idle", "registered", "tofired", "sffired"}
+       \/ pc[p] = "sending" /\ ~SlowSend(beh[p])
        \/ pc[p] = "waiting" /\ (held[p] # NoMsg \/ clock >= deadline[p])
   \/ \E c \in Cmds : commit[qof[c]] = c /\ \A t \in tg[c] : pc[<<c, t>>] = "ret"
 
@@ -249,7 +258,7 @@ DeliverEnabled(c) == commit[qof[c]] = c /\ \A t \in tg[c] : pc[<<c, t>>] = "ret"
 \* a command completes at most once ...
 AtMostOnce == \A c \in Cmds : delivered[c] <= 1
 \* ... and, when nothing more can happen, exactly once
-Completion == (~SysEnabled /\ ~ENABLED Tick) => \A c \in enq : delivered[c] = 1
+Completion == (~SysEnabled /\ ~ENABLED Tick /\ \A p \in Pairs : pc[p] # "sending") => \A c \in enq : delivered[c] = 1
 ExactlyOnceLive == \A c \in Cmds : (c \in enq) ~> (delivered[c] = 1)
 
 \* the value handed to the callback: nil / single / multi by number of targets, one entry per
@@ -276,13 +285,23 @@ PendingAwaits ==
   \A k \in DOMAIN pending :
     /\ pc[pending[k]] \in {"registered", "sending", "waiting", "tofired", "sffired"}
     /\ k = Key(pending[k][1], pending[k][2])
+\* ... and every call that still awaits a reply IS pending, whatever happens to the other calls
+\* (of this or any other command): nobody but the call itself (or the reply it gets) unregisters it
+AwaitingPending ==
+  \A p \in Active :
+    (pc[p] \in {"registered", "sending", "waiting"} /\ held[p] = NoMsg)
+      => (Key(p[1], p[2]) \in DOMAIN pending /\ pending[Key(p[1], p[2])] = p)
 \* a reply that is not addressed to a pending call changes nothing (action property)
 UnknownDropped ==
   [][\A m \in net : (PRecv(m) /\ Key(m.id, m.snd) \notin DOMAIN pending)
         => UNCHANGED <<pending, held, pc, result, delivered, commit>>]_vars
 
 \* a command in progress is never older than its response timeout (logical time, steps take no time)
-Bounded == \A q \in Queues : commit[q] # NoCmd => clock <= began[commit[q]] + TO
+\* (counted from the latest return of a SendFunc of the command; no bound while one is still inside)
+Bounded ==
+  \A q \in Queues :
+    (commit[q] # NoCmd /\ \A t \in tg[commit[q]] : pc[<<commit[q], t>>] \notin {"idle", "registered", "sending"})
+      => clock <= began[commit[q]] + TO
 \* a timeout is never reported before the timer ran out
 TimeoutNotEarly == \A p \in Pairs : pc[p] = "tofired" => clock >= deadline[p]
 
